@@ -165,7 +165,15 @@ HybEngineOff == Acc /\ ~st.eng /\ Hyb  => EngineOffRel
 SecondLaw  == LossNonNeg /\ EtaRange /\ OrderFc /\ OrderGen /\ OrderEdrv /\ OrderRes /\ DynBrakeSign
 
 (* ---- C09 ---------------------------------------------------------------- *)
-Lim == Acc /\ cfg.assert
+(* "Whenever a step is accepted WITH LIMIT CHECKING ON ...": every clause of that sentence (ratings, transient     *)
+(* limit, ramp, published locomotive limit, SOC window) is judged on units with cfg.assert only.  With              *)
+(* Locomotive.assert_limits = false the code skips exactly the two engine checks (rating and transient limit,       *)
+(* fuel_converter.rs:192-208); every other ensure! (generator.rs:254/:261, electric_drivetrain.rs:171, the SOC      *)
+(* guards and limit checks of reversible_energy_storage.rs:475-523, engine >= 0 / engine off => 0) stays - Level B   *)
+(* (FcOk) says so, and C01 / C08 (Ledger, SecondLaw, Monotone, EngineOff) are judged in both modes.  The last       *)
+(* sentence of C09 (PublishedSane) is about published limits, whatever the mode.                                    *)
+LimOn == cfg.assert
+Lim == Acc /\ LimOn
 FcRating    == Lim /\ HasFc => LeEps(p.brake, cfg.rfc)
 FcTransient == Lim /\ HasFc => LeEps(p.brake, pub.fc)
 GenRating   == Lim /\ HasFc => p.gprop + p.gaux <= cfg.rgen + T
@@ -200,8 +208,8 @@ WithinLimits == FcRating /\ FcTransient /\ GenRating /\ EdrvRating /\ ResRating 
 
 (* ASSUME floor <= rating (FuelConverter::set_cur_pwr_out_max applies .min(rating) before .max(floor)) *)
 RateDt == (cfg.rfc * st.dtq) \div (cfg.lag * cfg.ds) + T1          \* (rating / lag) * dt, rounded up off-lattice
-Ramp == Pubd /\ HasFc => /\ pub.fc <= Max2(p.brake + RateDt, cfg.floor) + T
-                         /\ pub.fc <= cfg.rfc + T
+Ramp == Pubd /\ HasFc /\ LimOn => /\ pub.fc <= Max2(p.brake + RateDt, cfg.floor) + T
+                                  /\ pub.fc <= cfg.rfc + T
 
 (* SOC window.  ASSUME: the initial SOC is inside the window and every step so far had dt <= DtSafe:    *)
 (* with x = soc - min on the discharge ramp, disch = x*R/W (W = capacity*(lo_ramp - min)), so           *)
@@ -212,7 +220,7 @@ DtSafeOk(dtq) == /\ dtq * cfg.kr * cfg.rres <= ((cfg.slo - cfg.smin) \div 1001) 
                  /\ dtq * cfg.rres <= cfg.smax - cfg.shi
 (* the absolute branch of almost_le admits 0.001 W beyond a zero limit: one step of that *)
 SocSlack == AbsEpsQ * cfg.kr * 64 + T
-SocWindow == HasRes /\ safe => cfg.smin - SocSlack <= soc /\ soc <= cfg.smax + SocSlack
+SocWindow == HasRes /\ safe /\ LimOn => cfg.smin - SocSlack <= soc /\ soc <= cfg.smax + SocSlack
 
 SaneFc  == /\ cfg.floor - T <= pub.fc /\ pub.fc <= cfg.rfc + T
            /\ pub.gen <= cfg.rgen + T /\ Eq(pub.gprop, pub.gen - pub.aux, T)
@@ -325,6 +333,8 @@ ReqOf(c, pb, cls) ==
     [] cls = "pub"    -> pb.loco
     [] cls = "pubp"   -> pb.loco + c.delta            \* inside the code's tolerance (when the tolerant check binds)
     [] cls = "over"   -> pb.loco + FDiv(pb.loco, 64)  \* + 1.6 %: outside
+    [] cls = "o8"     -> pb.loco + FDiv(pb.loco, 8)   \* + 12.5 % and twice the published limit: far outside (what a
+    [] cls = "dbl"    -> 2 * pb.loco                  \*   unit without limit checking may be driven with)
     [] cls = "regenm" -> -pb.regen + c.delta
     [] cls = "regen"  -> -pb.regen
     [] cls = "regenp" -> -pb.regen - c.delta
